@@ -29,6 +29,7 @@ static char *prog[MAXTH]; static int nprog;
 static char tn[MAXTH+8][8]; static char crn[8][8]; static struct call_rcu_data *crds[8]; static int ncrd;
 static void name_crd(struct call_rcu_data *c){ (void)c; }
 static char mnames[64][8]; static int nm;
+static struct urcu_gp_poll_state PH[MAXTH]; static int PHn[MAXTH];      /* last polling handle of each thread (polled once more at the end of the run) */
 static void *scen_reader[MAXTH]; /* reader records of the scenario threads: anything else in the registry at a fork point belongs to a helper */
 void *vs_named_malloc(size_t sz){ void *p=calloc(1,sz<16?16:sz);
 	if(sz==sizeof(struct call_rcu_data) && ncrd<8){ sprintf(crn[ncrd],"crd%d",ncrd); vs_region(p,sz,crn[ncrd]); crds[ncrd++]=p; }
@@ -48,7 +49,7 @@ static void body(int t){
 	int depth=0; struct urcu_gp_poll_state ph; int nph=0; memset(&ph,0,sizeof ph);
 	for(char *p=prog[t]; *p; p++){
 		switch(*p){
-		case 'S': vs_call("start",nph); ph=start_poll_synchronize_rcu(); vs_ret("start",ph.grace_period_id); nph++; break;
+		case 'S': vs_call("start",nph); ph=start_poll_synchronize_rcu(); vs_ret("start",ph.grace_period_id); nph++; PH[t]=ph; PHn[t]=nph; break;
 		case 'P': if(nph){ vs_call("poll",nph-1); int r=poll_state_synchronize_rcu(ph); vs_ret("poll",r); } break;
 		case 'C': case 'c': { struct obj *o=&O[p[1]-'0']; o->chain=(*p=='c'); p++;
 			/* resolving (and possibly creating) the helper is library code too, but naming its region must not be scheduled */
@@ -87,4 +88,5 @@ int main(int argc,char**argv){
 	for(int i=0;i<nprog;i++) vs_spawn(body);
 	vs_run(argv[2]);
 	for(int i=0;i<NO;i++) printf("- ran %d %d\n", i, O[i].ran);
+	for(int t=0;t<MAXTH;t++) if(PHn[t]) printf("- finalpoll %d %d\n", t, (int)poll_state_synchronize_rcu(PH[t]));
 	fflush(stdout); _exit(0); }
